@@ -2,7 +2,7 @@ CONSTANTS
   MaxT = 3
   MaxK = 4
   Shifts = {"0", "a", "b", "c"}
-  Drivers = {"model", "model_range", "loader_stack", "loader_multi", "loader_range", "group_list", "group_map"}
+  Drivers = {"model", "model_range", "loader_stack", "loader_multi", "loader_range", "group_list", "group_map", "group_map_hetero"}
   Models = {"ZNCC", "NCC", "PCC"}
   IncludeBig = TRUE
 SPECIFICATION Spec
@@ -11,5 +11,6 @@ INVARIANT CandidateOrder
 INVARIANT Correct
 INVARIANT DecodeBijective
 INVARIANT V0416WrongExactlyWhen
+INVARIANT SharedCountWrongExactlyWhen
 INVARIANT Emit
 CHECK_DEADLOCK FALSE
